@@ -309,6 +309,15 @@ pub fn run(rec: &mut Rec, rng: &mut Rng, thorough: bool) {
             }
         }
     }
+    // custom fields: same name twice (last wins), names that differ only in letter case or padding (distinct / same field)
+    for (a, b) in [("X-Trace", "X-Trace"), ("X-Trace", "x-trace"), ("x-trace", "X-TRACE"), ("X-Trace", " X-Trace "), ("Host", "host"), ("Content-Lengthh", "content-lengthh")] {
+        for (va, vb) in [("1", "2"), ("same", "same"), ("", "x")] {
+            let l1 = format!("{}: {}", a, va).into_bytes();
+            let l2 = format!("{}:{}", b, vb).into_bytes();
+            block_case(rec, rng, &[l1.clone(), l2.clone()], "custom-pair");
+            block_case(rec, rng, &[l2, b"Accept: text/plain".to_vec(), l1], "custom-pair");
+        }
+    }
     // random blocks of 0..6 lines
     let n = if thorough { 150000 } else { 6000 };
     for k in 0..n {
